@@ -128,10 +128,15 @@ def r_C21a(root):
     init = find_i(root, rel, "TextXVisitor.__init__"); vs = find_i(root, rel, "TextXVisitor.visit_str_match")
     fi_i = sem.info(init); fi_v = sem.info(vs)
     rx = None
-    for c in calls(init):
-        if callee_name(c) == "compile" and c.args:
-            a0 = fi_i.expand(c.args[0], at=c)
-            if isinstance(a0, ast.Constant) and isinstance(a0.value, str): rx = a0.value
+    # the keyword regex: a re.compile(<constant>) in __init__ or in a module-level function __init__ calls (constants folded)
+    scopes = [init] + [f for f in t.body if isinstance(f, ast.FunctionDef) and any(callee_name(c) == f.name for c in calls(init))]
+    for sc_ in scopes:
+        fi_s = sem.info(sc_)
+        for c in calls(sc_):
+            if callee_name(c) == "compile" and c.args:
+                a0 = fi_s.expand(c.args[0], at=c)
+                v = a0.value if isinstance(a0, ast.Constant) and isinstance(a0.value, str) else const_str(a0, t)
+                if isinstance(v, str): rx = v
     if rx is None: raise AnalysisError("keyword regex not found")
     p = list(sre.parse(rx))
     ok = len(p) == 2 and p[0][0] is sc.IN and _cat_set(p[0][1]) == {"wordnd"} and p[1][0] is sc.MAX_REPEAT and p[1][1][0] == 0 and p[1][1][1] == sc.MAXREPEAT \
@@ -142,10 +147,14 @@ def r_C21a(root):
     if len(rm) != 1: raise AnalysisError("expected one RegExMatch construction in visit_str_match")
     ats = fi_v.atoms_at(rm[0])
     gs = [a.replace(" ", "") for a, pol in ats if pol]
-    full = any(("span()==(0,len(" in g) or ("end()==len(" in g) or ("fullmatch(" in g) or ("group()==" in g) for g in gs)
+    full = full_match_guard(ats)
     if not full: out.append(Finding("C21", "C21.a", rel, "TextXVisitor.visit_str_match", ast.unparse(rm[0]), "keyword branch is not guarded by a full match of the identifier regex (guards: %s)" % gs))
-    pat = rm[0].args[0]
-    tail = pat.values[-1].value if isinstance(pat, ast.JoinedStr) and isinstance(pat.values[-1], ast.Constant) else None
+    pat = fi_v.expand(rm[0].args[0], at=rm[0])
+    # the pattern, evaluated for a sample keyword, is the keyword followed by a word boundary
+    from sa import pyeval as _pe
+    names_ = {x.id for x in ast.walk(pat) if isinstance(x, ast.Name)}
+    try: tail = "\\b" if _pe.evaluate(pat, {n_: "KW" for n_ in names_}) == "KW\\b" else None
+    except _pe.Unsupported: tail = None
     if tail != "\\b": out.append(Finding("C21", "C21.a", rel, "TextXVisitor.visit_str_match", ast.unparse(rm[0]), "keyword regex does not end in a word boundary"))
     if not any(a.replace(" ", "") == "self.metamodel.autokwd" and pol for a, pol in ats): out.append(Finding("C21", "C21.a", rel, "TextXVisitor.visit_str_match", ast.unparse(rm[0]), "keyword regex built although autokwd is off"))
     return 4, out
